@@ -150,6 +150,13 @@ func (p *Parser) parseExpression(bindingPower int) (ASTNode, error) {
 	if err != nil {
 		return ASTNode{}, err
 	}
+	return p.continueExpression(leftNode, bindingPower)
+}
+
+// continueExpression extends leftNode with the infix operators that bind
+// tighter than bindingPower.
+func (p *Parser) continueExpression(leftNode ASTNode, bindingPower int) (ASTNode, error) {
+	var err error
 	currentToken := p.current()
 	for bindingPower < bindingPowers[currentToken] {
 		p.advance()
@@ -550,12 +557,20 @@ func (p *Parser) parseDotRHS(bindingPower int) (ASTNode, error) {
 		if err := p.match(tLbracket); err != nil {
 			return ASTNode{}, err
 		}
-		return p.parseMultiSelectList()
+		left, err := p.parseMultiSelectList()
+		if err != nil {
+			return ASTNode{}, err
+		}
+		return p.continueExpression(left, bindingPower)
 	} else if lookahead == tLbrace {
 		if err := p.match(tLbrace); err != nil {
 			return ASTNode{}, err
 		}
-		return p.parseMultiSelectHash()
+		left, err := p.parseMultiSelectHash()
+		if err != nil {
+			return ASTNode{}, err
+		}
+		return p.continueExpression(left, bindingPower)
 	}
 	return ASTNode{}, p.syntaxError("Expected identifier, lbracket, or lbrace")
 }
